@@ -279,8 +279,14 @@ def _static_kind(e, names, funcs):
     if k == "un":
         return "bool" if e[1] == "not" else _static_kind(e[2], names, funcs)
     if k == "bi":
-        return {"str_length": "int", "array_length": "int", "char_at": "int", "abs": None, "int_to_string": "string",
-                "str_concat": "string", "str_substring": "string", "str_contains": "bool", "str_equals": "bool"}.get(e[1])
+        if e[1] in ("abs", "min", "max") and e[2]:
+            return _static_kind(e[2][0], names, funcs)
+        return {"str_length": "int", "array_length": "int", "char_at": "int", "int_to_string": "string",
+                "str_concat": "string", "str_substring": "string", "str_contains": "bool", "str_equals": "bool",
+                "string_to_int": "int", "char_to_lower": "int", "char_to_upper": "int", "digit_value": "int", "cast_int": "int",
+                "cast_bool": "bool", "cast_float": "float", "cast_string": "string", "string_from_char": "string",
+                "is_digit": "bool", "is_alpha": "bool", "is_upper": "bool", "is_lower": "bool", "is_whitespace": "bool",
+                "sqrt": "float", "floor": "float", "ceil": "float", "round": "float", "map_length": "int", "map_has": "bool"}.get(e[1])
     return None
 
 
@@ -367,3 +373,15 @@ ALL["array_push_used"] = array_push_used
 
 
 ALL["operand_class_gap"] = operand_class_gap
+
+
+def cast_of_string(prog):
+    """cast_bool / cast_int / cast_float applied to a string: STDLIB.md declares the argument as `any`, the type checker
+    accepts it, the native backend has no conversion for strings (C compilation failure)."""
+    names = _name_types(prog)
+    funcs = {f["name"]: f["ret"] for f in prog["funcs"]}
+    return any(e and e[0] == "bi" and e[1] in ("cast_bool", "cast_int", "cast_float") and e[2] and
+               _static_kind(e[2][0], names, funcs) == "string" for e in prog_exprs(prog))
+
+
+ALL["cast_of_string"] = cast_of_string
